@@ -427,7 +427,7 @@ pub fn run(ctx: &Ctx) -> Report {
     cfg.max_transitions = if ctx.scale < 1.0 { 10 } else { 300 };
     cfg.extreme_offsets = true;
     // wl 1: generated zones in three versions
-    run_cases(ctx, &mut rep, 1, ctx.n(20_000, 400_000), |l, rng, i| {
+    run_cases(ctx, &mut rep, 1, ctx.n(100_000, 1_500_000), |l, rng, i| {
         let mut c = cfg.clone();
         if i % 2 == 0 {
             c.rule = *rng.pick(&[RuleMode::Fixed, RuleMode::Alt, RuleMode::Alt]);
@@ -482,7 +482,7 @@ pub fn run(ctx: &Ctx) -> Report {
         l.distinct_enumerated += 1;
     });
     // wl 3: corruptions of generated files
-    run_cases(ctx, &mut rep, 3, ctx.n(3000, 60_000), |l, rng, _| {
+    run_cases(ctx, &mut rep, 3, ctx.n(20_000, 300_000), |l, rng, _| {
         let mut c = cfg.clone();
         c.max_transitions = 8;
         c.extreme_times = false;
@@ -506,7 +506,7 @@ pub fn run(ctx: &Ctx) -> Report {
         }
     });
     // wl 4: generic corruptions of vendored files (byte level: the model decoder supplies the expectation)
-    run_cases(ctx, &mut rep, 4, ctx.n(blobs.len() as u64, blobs.len() as u64 * 20), |l, rng, i| {
+    run_cases(ctx, &mut rep, 4, ctx.n(blobs.len() as u64 * 3, blobs.len() as u64 * 40), |l, rng, i| {
         let good = &blobs[i as usize % blobs.len()];
         let mut n = 0;
         // second header position = first occurrence of "TZif" after byte 4
